@@ -106,14 +106,21 @@ pub fn run(
                 frontier_model: Arc::new(yens_frontier),
                 termination_model: si.termination_model.clone(),
             };
-            let spur_result = underlying.run_vertex_oriented(
+            let spur_search = underlying.run_vertex_oriented(
                 spur_vertex_id,
                 Some(query.target),
                 query.user_query,
                 &crate::algorithm::search::direction::Direction::Forward,
                 &yens_si,
-            )?;
+            );
             iterations += 1;
+            let spur_result = match spur_search {
+                Ok(result) => result,
+                // with these edges cut the target cannot be reached from this spur vertex, so
+                // there is no alternative here; the query as a whole is still answerable
+                Err(SearchError::NoPathExistsBetweenVertices(_, _)) => continue,
+                Err(e) => return Err(e),
+            };
 
             let spur_path = get_first_route(&spur_result)?;
             let candidate_path = root_path
